@@ -78,8 +78,8 @@ func (b *evBackend) release(p *Parked) {
 type c19Up struct{ b *evBackend }
 
 func (u c19Up) DispatchMetricMap(ctx context.Context, mm *gostatsd.MetricMap) {}
-func (u c19Up) EstimatedTags() int                                          { return 0 }
-func (u c19Up) WaitForEvents()                                              {}
+func (u c19Up) EstimatedTags() int                                            { return 0 }
+func (u c19Up) WaitForEvents()                                                {}
 func (u c19Up) DispatchEvent(ctx context.Context, ev *gostatsd.Event) {
 	u.b.mu.Lock()
 	u.b.got[ev.Title] = append(u.b.got[ev.Title], copyEvent(ev))
